@@ -16,6 +16,7 @@ CONSTANTS
   TruncNow = FALSE
   NoExpiryTest = FALSE
   RefusalLeak = FALSE
+  StalePeek = FALSE
   Sync = FALSE
   KeepHist = TRUE
   OneGate = FALSE
